@@ -174,6 +174,12 @@ def c18_violations(plan: dict, result: dict, goldens: dict):
         g = goldens[kid]
         if g.get("disagree"):
             continue  # reported separately
+        if g.get("resource_limit") or rec.get("resource_limit"):
+            # Whether an input close to the interpreter's recursion limit is still accepted
+            # depends on how deep the caller's own stack already is (the simulator's frames, a
+            # command line, an embedding): like running out of memory it is a limit of the
+            # environment, not one of the factors the property lists. Not compared.
+            continue
         gok = succeeded(g["outcome"])
         sok = succeeded(oc)
         sig = None
